@@ -15,6 +15,7 @@ mod c16;
 mod c17;
 mod c18;
 mod c20;
+mod eks;
 mod hist;
 mod mutate;
 mod providers;
